@@ -154,8 +154,8 @@ CLAIMED = {
     "C08": {
         "text": "Theorems over an executable model of expand_run_space: sorted-key order, mixed-radix characterisation of the Cartesian product (last key fastest), by_position alignment, "
                 "block and combine characterisations, every run carries exactly the union of keys, every documented rejection, cap rejection (unconditional now that the no-blocks cap "
-                "is repaired) and the cost theorem 'rejected for the cap implies nothing materialised' conditional on the generated fact for the evaluation order (refuted for the current "
-                "order with a witness: open finding F-C08-a). Closed under the global context. Model vs implementation compared on thousands of specs (incl. csv/json/yaml/ndjson sources) "
+                "is repaired) and the cost theorem 'rejected for the cap implies nothing materialised' (C08_cap_rejection_builds_nothing, unconditional now that the evaluation order is repaired by fix 7b147bf; "
+                "the generated fact 'sizes are computed arithmetically and tested before any run is built' is a hard reflexivity obligation, and for the former order a witness is proved). Closed under the global context. Model vs implementation compared on thousands of specs (incl. csv/json/yaml/ndjson sources) "
                 "every run; giant products run in a resource-limited subprocess.",
         "note": "Model coq/Model/RunSpace.v; file parsing is cross-checked not modelled; the cost twin is tied to the code through the generated evaluation-order fact and the giant stream.",
         "technique": "Coq proof over executable model + generated facts + differential correspondence + resource-limited giants",
